@@ -57,6 +57,15 @@ Subscribe(w, u, by, shape) ==
        ELSE hook' = hook /\ last' = "refused"
     /\ UNCHANGED <<up, inbox>>
 
+\* A subscription request carries no nonce, time stamp or counter: whoever saw a request the owner once signed (the
+\* node, anyone on the path) can send the same bytes again at any later time, and the handler accepts them - the
+\* owner's earlier choice comes back (observation O-W1; an action of its own so that the trace specification can name it).
+Replay(w, u) ==
+    /\ <<w, u>> \in auth
+    /\ hook' = [hook EXCEPT ![w] = u]
+    /\ last' = "ok"
+    /\ UNCHANGED <<up, inbox, auth>>
+
 \* webhooks.Service.RemoveWebhook (no RPC reaches it in this repository; the service offers it)
 Remove(w) ==
     /\ hook' = [hook EXCEPT ![w] = NoUrl]
@@ -77,6 +86,7 @@ Up(u) == u \notin up /\ up' = up \cup {u} /\ last' = "env" /\ UNCHANGED <<hook, 
 Next ==
     \/ \E w \in Wallet, u \in Url, by \in Wallet, s \in Shape : Subscribe(w, u, by, s)
     \/ \E w \in Wallet : Remove(w)
+    \/ \E w \in Wallet, u \in Url : Replay(w, u)
     \/ \E S \in SUBSET Wallet : S # {} /\ Notify(S)
     \/ \E u \in Url : Down(u) \/ Up(u)
 
